@@ -358,12 +358,12 @@ class Respondent(httping.Parsent):
         server closes it
         Sets the .persisted flag
         """
-        connection = self.headers.get("connection")  # check connection header
+        connection = self.headers.nab("connection")  # check connection header
         if self.version == (1, 1):  # rules for http v1.1
             self.persisted = True  # connections default to persisted
             # An HTTP/1.1 proxy is assumed to stay open unless
             # explicitly closed.
-            connection = self.headers.get("connection")
+            connection = self.headers.nab("connection")
             if connection and "close" in connection.lower():
                 self.persisted = False
 
@@ -381,7 +381,7 @@ class Respondent(httping.Parsent):
                 self.persisted = True
 
             # For older HTTP, Keep-Alive indicates persistent connection.
-            elif self.headers.get("keep-alive"):
+            elif self.headers.nab("keep-alive"):
                 self.persisted = True
 
             # At least Akamai returns a "Connection: Keep-Alive" header,
@@ -390,7 +390,7 @@ class Respondent(httping.Parsent):
                 self.persisted = True
 
             else:  # Proxy-Connection is a netscape hack.
-                proxy = self.headers.get("proxy-connection")
+                proxy = self.headers.nab("proxy-connection")
                 if proxy and "keep-alive" in proxy.lower():
                     self.persisted = True
 
@@ -461,14 +461,14 @@ class Respondent(httping.Parsent):
         self.headers.update(headers)
 
         # are we using the chunked-style of transfer encoding?
-        transferEncoding = self.headers.get("transfer-encoding")
+        transferEncoding = self.headers.nab("transfer-encoding")
         if transferEncoding and transferEncoding.lower() == "chunked":
             self.chunked = True
         else:
             self.chunked = False
 
         # NOTE: RFC 2616, S4.4, #3 says ignore if transfer-encoding is "chunked"
-        contentLength = self.headers.get("content-length")
+        contentLength = self.headers.nab("content-length")
         if contentLength and not self.chunked:
             try:
                 self.length = int(contentLength)
@@ -486,7 +486,7 @@ class Respondent(httping.Parsent):
                 (self.method == "HEAD")):
             self.length = 0
 
-        contentType = self.headers.get("content-type")
+        contentType = self.headers.nab("content-type")
         if contentType:
             if u';' in contentType: # should also parse out charset for decoding
                 contentType, sep, encoding = contentType.rpartition(u';')
@@ -1011,7 +1011,7 @@ class Client():
         """
         if self.redirects:
             redirect = self.redirects[-1]
-            location = redirect['headers'].get('location')
+            location = redirect['headers'].nab('location')
             path, sep, query = location.partition('?')
             path = unquote(path)
             if sep:
@@ -1160,7 +1160,7 @@ class Client():
                                      ])
                     redirected = False
                     if (self.respondent.redirectable and self.respondent.redirectant
-                            and self.respondent.headers.get('location')):
+                            and self.respondent.headers.nab('location')):
                         self.redirects.append(copy.copy(response))
                         try:
                             self.redirect()
